@@ -446,3 +446,25 @@ def mir_value_key(fn, op, depth=6):
             if "cast" in rv:
                 return ("cast", rv.get("ty"), mir_value_key(fn, rv["cast"], depth - 1))
     return r
+
+
+def answer_definitions(fn, depth=14):
+    """the definitions of what a function answers: for Result-returning functions the payload of every `Ok(..)` that reaches
+    the return place, otherwise the returned value itself. Each is returned as a simp_deep term; a top-level `phi` means the
+    answer has more than one definition (a shortcut path next to the main one)."""
+    v = FnView(fn)
+    ret = v.terms.local(0, depth)
+    oks = [t for t in walk(ret) if t[0] == "agg" and t[1].endswith("Result::Ok") and t[2]]
+    if oks:
+        return [simp_deep(t[2][0]) for t in oks]
+    return [simp_deep(ret)]
+
+
+def single_answer(R, rid, fn, must_call, what):
+    """R-PROV: the function's answer has exactly one definition and it is computed by `must_call` (regex)."""
+    defs = answer_definitions(fn)
+    bad = [d for d in defs if d[0] == "phi" or not term_has_call(d, "re:" + must_call)]
+    R.ob(rid, fn, "single-answer", bool(defs) and not bad,
+         "%s on every path: %s" % (what, sshow(defs[0], 5)) if defs and not bad else
+         "the answer has a definition that is not %s (%s): a shortcut next to the main path answers something else for some inputs" %
+         (what, [sshow(d, 6) for d in bad][:2]))
